@@ -204,16 +204,31 @@ class SharedRecListener(Listener):
             RecListener.OnMethodStop(RecListener(r, self.full), searchData, solution, status)
 
 
-def partial_listener(run, subset, full=True):
+LISTENER_SHAPES = ("direct", "via-base", "mixin", "split")
+
+
+def partial_listener(run, subset, full=True, shape="direct"):
     """A listener class derived from the base Listener that overrides exactly the callbacks in `subset`
-    (the others stay the base-class no-ops) and records what it is told."""
+    (the others stay the base-class no-ops) and records what it is told.  shape: where in the class hierarchy the overriding
+    methods live - in the listener's own class ("direct"), in an intermediate class the listener's class derives from without
+    adding anything ("via-base"), in a mixin listed before Listener ("mixin"), or partly in an intermediate class and partly in
+    the leaf ("split").  All of them are listeners derived from the base class that override the callbacks in `subset`."""
     full_cls = RecListener
-    ns = {}
     names = {"before": "BeforeMethodStart", "enditer": "OnEndIteration", "stop": "OnMethodStop"}
-    for k in subset:
-        ns[names[k]] = getattr(full_cls, names[k])
-    ns["__init__"] = full_cls.__init__
-    cls = type("PartialRecListener_" + "_".join(sorted(subset)), (Listener,), ns)
+    meths = {names[k]: getattr(full_cls, names[k]) for k in subset}
+    tag = "_".join(sorted(subset)) or "none"
+    if shape == "via-base":
+        base = type("RecBase_" + tag, (Listener,), dict(meths, __init__=full_cls.__init__))
+        cls = type("LeafRecListener_" + tag, (base,), {})
+    elif shape == "mixin":
+        mixin = type("RecMixin_" + tag, (object,), dict(meths))
+        cls = type("MixedRecListener_" + tag, (mixin, Listener), {"__init__": full_cls.__init__})
+    elif shape == "split":
+        keys = sorted(meths)
+        base = type("RecBase_" + tag, (Listener,), dict({k: meths[k] for k in keys[::2]}, __init__=full_cls.__init__))
+        cls = type("SplitRecListener_" + tag, (base,), {k: meths[k] for k in keys[1::2]})
+    else:
+        cls = type("PartialRecListener_" + tag, (Listener,), dict(meths, __init__=full_cls.__init__))
     return cls(run, full)
 
 
@@ -231,7 +246,7 @@ class SolverRun:
 
     def __init__(self, problem, r=2.0, eps=0.01, limit=200, m=10, refine=False, fault=None, listener="rec",
                  extra_listeners=(), tag="", full_snap=True, events=None, cbs=("before", "enditer", "stop"),
-                 extra_first=False, probing=False, lip=None, fmin=None, params=None, judge=(0, 1)):
+                 extra_first=False, probing=False, lip=None, fmin=None, params=None, judge=(0, 1), lshape=None):
         # judge = (from, stride): the arg-max clause (all intervals compared - the costly one) is judged at every trial by default; very long
         # runs judge it from trial `from` on at every `stride`-th trial (the state is tracked at every trial all the same)
         self.tid = next(SolverRun._tid)
@@ -249,7 +264,10 @@ class SolverRun:
             for l in extra_listeners:
                 self.solver.AddListener(l)
         if listener == "rec":
-            self.listener = RecListener(self, full=full_snap) if len(self.cbs) == 3 else partial_listener(self, self.cbs, full_snap)
+            # the class shape of the recording listener rotates (see partial_listener): most runs use the plain class
+            shape = lshape or ("direct", "direct", "direct", "via-base", "direct", "mixin", "direct", "split")[self.tid % 8]
+            self.listener = RecListener(self, full=full_snap) if (len(self.cbs) == 3 and shape == "direct") \
+                else partial_listener(self, self.cbs, full_snap, shape)
             self.solver.AddListener(self.listener)
         if not extra_first:
             for l in extra_listeners:
